@@ -16,6 +16,10 @@ type GenCfg struct {
 	LongStr     int  // occasional long string
 	NullPct     int  // probability (percent) an optional is nil
 	Adversarial bool // bias scalars to extremes
+	// Class selects an adversarial value class for all scalars of a workload:
+	// "" (mixed), "neg" (all negative / high bit set), "tiny" (two-value domains, many equal),
+	// "nan" (floats mostly NaN/Inf/zero), "sentinel" (strings around "__#NIL#__").
+	Class string
 }
 
 var DefaultGen = GenCfg{MaxList: 4, LongList: 0, MaxStr: 12, LongStr: 300, NullPct: 33, Adversarial: true}
@@ -30,6 +34,9 @@ var strSpecials = []string{"", "a", "__#NIL#__", "__#NIL#_", "__#NIL#__x", "\x00
 
 // GenLeaf draws the bits/bytes of one leaf value.
 func GenLeaf(t *rapid.T, k Kind, cfg GenCfg, label string) *Val {
+	if v := genClassLeaf(t, k, cfg, label); v != nil {
+		return v
+	}
 	special := cfg.Adversarial && rapid.IntRange(0, 2).Draw(t, label+"?sp") == 0
 	switch k {
 	case Int32:
@@ -148,4 +155,56 @@ func Clone(v *Val) *Val {
 		}
 	}
 	return o
+}
+
+func genClassLeaf(t *rapid.T, k Kind, cfg GenCfg, label string) *Val {
+	switch cfg.Class {
+	case "neg":
+		switch k {
+		case Int32:
+			return &Val{U: uint64(uint32(rapid.Int32Range(math.MinInt32, -1).Draw(t, label)))}
+		case Int64:
+			return &Val{U: uint64(rapid.Int64Range(math.MinInt64, -1).Draw(t, label))}
+		case Uint32:
+			return &Val{U: uint64(rapid.Uint32Range(1<<31, math.MaxUint32).Draw(t, label))}
+		case Uint64:
+			return &Val{U: rapid.Uint64Range(1<<63, math.MaxUint64).Draw(t, label)}
+		case Float32:
+			return &Val{U: uint64(rapid.Uint32().Draw(t, label) | 0x80000000)}
+		case Float64:
+			return &Val{U: rapid.Uint64().Draw(t, label) | 0x8000000000000000}
+		case String:
+			b := rapid.SliceOfN(rapid.ByteRange(0x80, 0xff), 1, 6).Draw(t, label)
+			return &Val{S: Bytes(b)}
+		}
+	case "tiny":
+		switch k {
+		case Int32:
+			return &Val{U: uint64(uint32(rapid.SampledFrom([]int32{-7, 3}).Draw(t, label)))}
+		case Int64:
+			return &Val{U: uint64(rapid.SampledFrom([]int64{-9, -8}).Draw(t, label))}
+		case Uint32:
+			return &Val{U: uint64(rapid.SampledFrom([]uint32{5, 1 << 31}).Draw(t, label))}
+		case Uint64:
+			return &Val{U: rapid.SampledFrom([]uint64{1 << 63, 1<<63 + 1}).Draw(t, label)}
+		case Float32:
+			return &Val{U: uint64(rapid.SampledFrom([]uint32{0xbf800000, 0xc0000000}).Draw(t, label))}
+		case Float64:
+			return &Val{U: rapid.SampledFrom([]uint64{0x3ff0000000000000, 0x3ff0000000000000}).Draw(t, label)}
+		case String:
+			return &Val{S: Bytes(rapid.SampledFrom([]string{"", "a"}).Draw(t, label))}
+		}
+	case "nan":
+		switch k {
+		case Float32:
+			return &Val{U: uint64(rapid.SampledFrom(f32Specials).Draw(t, label))}
+		case Float64:
+			return &Val{U: rapid.SampledFrom(f64Specials).Draw(t, label)}
+		}
+	case "sentinel":
+		if k == String {
+			return &Val{S: Bytes(rapid.SampledFrom([]string{"__#NIL#__", "__#NIL#__", "__#NIL#_", "__#NIL#__a", "z", "", "A", "__#NIL#", "\xff"}).Draw(t, label))}
+		}
+	}
+	return nil
 }
